@@ -173,7 +173,7 @@ def run_session(job):
                 cu = os.path.join(d, "conv_u.gaf")
                 r = run_cli(["view", F, "-g", gfa, "-f", "unstable", "-o", cu])
                 conv = lines_of(read_out(cu)) if r["status"] == "ok" else None
-            c = {"id": f"{sid}.{fmt}", "mode": mode, "truncated": False, "sampled": scale > 1 or rep > 1, "singles_only": rep > 1, "segs": segs, "file": [abstract(l) for l in lines], "fmt": fmt,
+            c = {"id": f"{sid}.{fmt}", "mode": mode, "truncated": False, "sampled": scale > 1 or rep > 1 or bool(opts.get("wide")), "singles_only": rep > 1, "segs": segs, "file": [abstract(l) for l in lines], "fmt": fmt,
                  "storage": storage, "gfa_gz": gfa_gz, "session": {k: st[k] for k in ("ref", "hap", "extra", "avoid")}}
             gvi = F + ".gvi"
             r = run_cli(["index", F, gfa])
@@ -238,7 +238,12 @@ def run_session(job):
                 else:
                     ctgs = sorted({s["sn"] for s in segs.values()})
                     clen = {g: max(s["so"] + s["ln"] for s in segs.values() if s["sn"] == g) for g in ctgs}
-                    if scale > 1:   # regions around every node boundary instead of all of them
+                    if opts.get("wide"):   # a long chain: regions that span 49 / 50 / 51 / all indexed nodes, and a few short ones
+                        L_, n_ = opts["wide"]
+                        regs = [{"ctg": "chr1" if "chr1" in ctgs else ctgs[0], "a": a, "b": b} for a, b in
+                                [(0, clen[ctgs[0]] - 1), (0, 49 * L_ - 1), (0, 50 * L_ - 1), (0, 50 * L_), (1, 51 * L_), (L_, 52 * L_ - 1), ((n_ - 51) * L_, n_ * L_ - 1),
+                                 ((n_ - 50) * L_, n_ * L_ - 1), (L_ - 1, L_), (5 * L_, 5 * L_), (0, 0), (7 * L_ + 1, 30 * L_), (2 * L_, 56 * L_ + 1)]]
+                    elif scale > 1:   # regions around every node boundary instead of all of them
                         regs = []
                         for g in ctgs:
                             pts = sorted({p for s_ in segs.values() if s_["sn"] == g for p in (s_["so"] - 1, s_["so"], s_["so"] + 1, s_["so"] + s_["ln"] - 1, s_["so"] + s_["ln"]) if 0 <= p < clen[g]} | {0, 2, 9, 10, clen[g] - 1})
@@ -306,6 +311,14 @@ def run_mode(ctx, mode):
         # one small session repeated 5,200 times: every node is then on more than 10,000 records
         big = next((j for j in jobs if 2 <= len(j[1]["walks"]) <= 3), jobs[0])
         jobs.append((big[0] + "-x5200", big[1], mode, "plain", False, ctx.seed * 7919 + 77, {"flagdir": flagdir, "scale": 1, "repeat": 5200}))
+    if mode == "C05" and jobs:
+        # a reference chain of 60 (thorough: 130) segments, every one aligned: regions and node lists over more than 50 indexed nodes
+        n_, L_ = (130 if ctx.thorough else 60), 3
+        wide = {"phase": "file", "ref": [L_] * n_, "hap": [], "extra": [], "avoid": [],
+                "links": [{"ends": [[k, 1], [k + 1, 0]], "ov": 0} for k in range(1, n_)],
+                "walks": [[[">", k]] for k in range(1, n_ + 1)] + [[[">", k], [">", k + 1]] for k in range(1, n_, 7)] + [[["<", k + 1], ["<", k]] for k in range(3, n_, 11)]}
+        for storage in ("plain", "bgzf"):
+            jobs.append((f"wide{n_}-{storage}", wide, mode, storage, False, ctx.seed * 7919 + 78, {"flagdir": flagdir, "scale": 1, "wide": (L_, n_), "pairs": 3}))
     if ctx.thorough and len(jobs) > 6000:
         rnd = random.Random(ctx.seed)
         jobs = rnd.sample(jobs, 6000)
